@@ -137,7 +137,12 @@ class Portfolio(IncrementalTrackingSolver):
         # instead of in one shot!)
         self._close_existing()
 
-        formula = self.environment.formula_manager.And(self.assertions)
+        conjuncts = list(self.assertions)
+        if assumptions is not None:
+            # The members receive one formula: the query is the
+            # conjunction of the assertions and of the assumptions
+            conjuncts.extend(assumptions)
+        formula = self.environment.formula_manager.And(conjuncts)
         _debug("Creating Queue and Pipe")
         signaling_queue: Queue = Queue()
         child_ctrl_pipe, my_ctrl_pipe = Pipe()
